@@ -445,6 +445,21 @@ def u_c10d():
     return u.finish()
 
 
+def u_c10f():
+    """e tags with relay, marker and an AUTHOR HINT (NIP-10 style, five strings): whatever the hint claims, ownership is the
+    stored target's pubkey."""
+    u = Universe("c10f", nauthors=2, nabsent=1)
+    A, B = 1, 2
+    u.add(B, 1, 10, [], clen=5)                                                              # 1 B's note
+    u.add(B, 30000, 11, [["d", "art"]], clen=6)                                              # 2 B's addressable event
+    u.add(A, 1, 9, [], clen=7)                                                               # 3 A's own note
+    u.add(A, 5, 26, [["e", ("ev", 1), "wss://r.example", "", ("pk", A)]], clen=0)            # 4 B's note, hint = the requester
+    u.add(A, 5, 27, [["e", ("ev", 2), "", "mention", ("pk", B)]], clen=0)                    # 5 B's addressable event, true hint
+    u.add(A, 5, 28, [["e", ("ev", 3), "", "", ("pk", B)], ["e", ("ev", 1), "", "", ("pk", A)]], clen=0)   # 6 own target with a
+    #                                                                        false hint first, then B's note claimed as A's
+    return u.finish()
+
+
 def u_c14b():
     """A deletion request with many targets (first and last one the requester's own stored events, absent ids in between):
     one store call with a long run of index updates inside one transaction (used by the concurrency check)."""
@@ -668,7 +683,7 @@ def u_exp(now):
     return u.finish()
 
 
-CURATED = dict(c18c=u_c18c, c11c=u_c11c, c18b=u_c18b, c09d=u_c09d, many=u_many, c09t=u_c09t, c10e=u_c10e, c12y=u_c12y, c14b=u_c14b, c10d=u_c10d, qv=u_qv, c09c=u_c09c, c10c=u_c10c, c16=u_c16, c11b=u_c11b, c12x=u_c12x, c09b=u_c09b, c10b=u_c10b, sz=u_sz, core=u_core, c09=u_c09, c10=u_c10, c11=u_c11, c18=u_c18, q=u_q)
+CURATED = dict(c10f=u_c10f, c18c=u_c18c, c11c=u_c11c, c18b=u_c18b, c09d=u_c09d, many=u_many, c09t=u_c09t, c10e=u_c10e, c12y=u_c12y, c14b=u_c14b, c10d=u_c10d, qv=u_qv, c09c=u_c09c, c10c=u_c10c, c16=u_c16, c11b=u_c11b, c12x=u_c12x, c09b=u_c09b, c10b=u_c10b, sz=u_sz, core=u_core, c09=u_c09, c10=u_c10, c11=u_c11, c18=u_c18, q=u_q)
 
 
 # ------------------------------------------------------------------------------------------------
